@@ -373,6 +373,12 @@ func VerifC08GrpcStream() {
 		}
 		_ = multi.StreamBlocks(req, verifC08BlockStream{base})
 	} else {
+		// StreamTransactions (scan branch) skips slots without a block like StreamBlocks does
+		// (fix C19-S17): with EndSlot = 2^64-1 or 2^62 the slot-by-slot loop is a very long loop that
+		// only the client's cancellation ends; it is not a panic and is excluded here as for StreamBlocks.
+		// (The allocation these windows used to drive is decided by the reversed / epoch-crossing windows.)
+		verifAssume(!(rg.hasEnd && rg.end == 18446744073709551615))
+		verifAssume(!(rg.hasEnd && rg.end == 1<<62))
 		req := &old_faithful_grpc.StreamTransactionsRequest{StartSlot: rg.start, EndSlot: endSlot}
 		malformed := false
 		if focus == 1 && nEpochs*feature == 0 {
